@@ -93,9 +93,13 @@ pub fn profile(id: &str) -> Profile {
             p.opw = OpW { suspend: 8, awaitsuspend: 10, resume: 6, dropresumer: 3, desync: 10, sync: 6, futdesync: 4, await_: 3, trysync: 2, waitfor: 4, futsync: 0, after: 1, ..OpW::default() };
         }
         "C14" => {
-            p.opw = OpW { release: 3, sync: 10, trysync: 5, futsync: 5, ..OpW::default() };
+            p.opw = OpW { release: 5, sync: 10, trysync: 5, futsync: 5, futdesync: 7, after: 4, opengate: 5, dropfut: 3, ..OpW::default() };
             p.stepw = StepW { release: 1, nested_sync: 2, nested_desync: 3, ..StepW::default() };
-            p.root_holds_pct = 30;
+            p.root_holds_pct = 20;
+            p.queue_level_pct = 0;
+            p.gates = (1, 3);
+            p.wakers = (1, 2);
+            p.keep_going_after_early_destroy = true;
         }
         "C15" => {
             p.shape = Shape::Panic;
@@ -166,7 +170,7 @@ pub fn gated_case(p: &Profile) -> BoxedStrategy<Case> {
         let _ = first_free;
         callers.extend(free_callers);
         let must: Vec<u8> = (k as u8..objects).collect();
-        let cfg = Cfg { pool, objects, gates, streams: 0, level: Level::Desync, unlock_points, spurious: vec![], pre_open: vec![], root_holds: true, double_wake: false, gate_keep_all: false };
+        let cfg = Cfg { pool, objects, gates, streams: 0, level: Level::Desync, unlock_points, spurious: vec![], pre_open: vec![], root_holds: true, double_wake: false, gate_keep_all: false, keep_going_after_early_destroy: false, despawn_without_quiescence: false };
         let phase0 = Phase { callers, must_finish_objs: if k > 0 { must } else { vec![] }, ..Default::default() };
         Case { cfg, phases: vec![phase0], sched }
     })
@@ -243,7 +247,7 @@ pub fn panic_case(p: &Profile) -> BoxedStrategy<Case> {
             };
             ph2.push(vec![Op::Attempt { o: 0, kind, id: 0 }]);
         }
-        let cfg = Cfg { pool, objects, gates: 1, streams: 0, level: Level::Desync, unlock_points, spurious: vec![], pre_open: vec![], root_holds: true, double_wake: false, gate_keep_all: false };
+        let cfg = Cfg { pool, objects, gates: 1, streams: 0, level: Level::Desync, unlock_points, spurious: vec![], pre_open: vec![], root_holds: true, double_wake: false, gate_keep_all: false, keep_going_after_early_destroy: false, despawn_without_quiescence: false };
         let phase0 = Phase { callers, expect_panicked: vec![0], ..Default::default() };
         let phase1 = Phase { callers: ph2, capacity_probe: true, ..Default::default() };
         Case { cfg, phases: vec![phase0, phase1], sched }
@@ -260,8 +264,9 @@ pub fn poolchange_case(p: &Profile) -> BoxedStrategy<Case> {
         1 => (0u8..=3).prop_map(|n| vec![RootAct::SetPoolPublic { n }, RootAct::Despawn]),
         1 => (0u8..=2).prop_map(|n| vec![RootAct::SpawnThread, RootAct::SetPool { n }, RootAct::Despawn]),
     ];
-    (cfg_strategy(&p), phase_strategy(&p), acts, phase_strategy(&p), sched_strategy(p.sched_bytes), prop::bool::ANY).prop_map(|(mut cfg, ph0, acts, mut ph1, sched, two)| {
+    (cfg_strategy(&p), phase_strategy(&p), acts, phase_strategy(&p), sched_strategy(p.sched_bytes), prop::bool::ANY, prop::bool::ANY).prop_map(|(mut cfg, ph0, acts, mut ph1, sched, two, dwq)| {
         cfg.root_holds = true;
+        cfg.despawn_without_quiescence = dwq;
         cfg.level = Level::Desync;
         if two {
             ph1.root = acts;
